@@ -27,7 +27,7 @@ Apply(c) ==
       [] c.op = "deliver"  -> Deliver(c.n, c.t)
       [] c.op = "poll"     -> PollMax(c.n, SetOf(c.txs), c.max)
       [] c.op = "tick"     -> now' = now + 1 /\ ret' = [op |-> "tick"] /\ req' = {}
-                              /\ UNCHANGED <<known, lastReq, announcers, received, forwarded>>
+                              /\ UNCHANGED <<known, lastReq, announcers, received, forwarded, fwdBase>>
 
 LinCall == /\ fin = "run"
            /\ \E i \in pending :
